@@ -26,7 +26,8 @@ def run(tier, seed):
                         lit[1][0] = {"*": [{"p": "beta"}, "1/2"]}
                 o["mix"] = lit
         else:
-            p = g.program({"requests": g.rng.random() < 0.6, "nsteps": g.rng.choice([1, 2]), "nstrat": g.rng.choice([0, 1, 2])})
+            p = g.program({"requests": g.rng.random() < 0.6, "nsteps": g.rng.choice([1, 2]), "nstrat": g.rng.choice([0, 1, 2]),
+                           "rounded_splits": 0.3})
         if g.rng.random() < 0.35:
             # list-valued function arguments that mix whole-number literals with parameters
             pname = g.rng.choice(["beta", "gamma", "kappa", "mu"])
@@ -37,6 +38,13 @@ def run(tier, seed):
             first_strat = min([i for i, o in enumerate(p["ops"]) if o["op"] == "strat"] + [len(p["ops"])])
             p["ops"].insert(min(at, first_strat), {"op": "flow", "kind": "importation", "name": "pulse", "param": fn,
                                                    "dst": p["comps"][0], "split": False})
+        # a split that is only nearly normalised, given through a parameter: the literal twin carries the same numbers
+        kappa_val = None
+        for o in p["ops"]:
+            if o["op"] == "strat" and o.get("split") and all(isinstance(v_, str) and v_ in ("333/1000", "499/1000", "1/2") for v_ in o["split"].values()) and g.rng.random() < 0.7:
+                o["split"] = {s_: ({"p": "kappa"} if v in ("333/1000", "499/1000") else v) for s_, v in o["split"].items()}
+                kappa_val = "333/1000" if len(o["split"]) == 3 else "499/1000"
+                break
         zeta = False
         rnames = [o["name"] for o in p["ops"] if o["op"] == "req"]
         if rnames and not any(o["op"] == "whitelist" for o in p["ops"]) and g.rng.random() < 0.5:
@@ -54,6 +62,8 @@ def run(tier, seed):
         pv = {k: v for k, v in g.params_values(small=True).items()}
         if zeta:
             pv["zeta"] = g.rng.choice(["3/4", "1/4", "5/2"])
+        if kappa_val is not None:
+            pv["kappa"] = kappa_val
         base = dict(p)
         obs = [{"obs": "onestep", "params": pv}]
         if (not p["nonlinear"]) or nsteps(p) <= 2:
